@@ -183,6 +183,11 @@ func run(r *core.Run) {
 	r.Bound("CB_containers", len(cbContainers))
 	r.Bound("CB_callbacks", ck)
 	run1("CB", auxData{}, "")
+	// registry states a fresh runtime is never in (exported-but-unbound names, the language package exporting one,
+	// language names rebound to non-functions, import chains), then every callable
+	r.Bound("PKG_registry_states", len(pkgStates))
+	r.Bound("PKG_name_alphabet", pkgNameAlphabet)
+	run1("PKG", auxData{}, "")
 	// (d) level 1 and level 2 of the value closure
 	var v2, v2kinds []string
 	if len(v1) > 0 {
